@@ -832,6 +832,184 @@ theorem inv_cmut (P : Params V) (T : Tables) (hcov : Coverage T = true) (w : Wor
       · intro kid
         exact Or.inl (findComp_set w w1 h.1 h.2 _ hdom.ids.keys hg hgs kid (by rw [hlk]) rfl rfl)
 
+/-- the base of a component never reads the glyph that holds the component (no cycles) -/
+theorem base_not_reads_host {gs : Layer} {fuel : Nat} (hb : Bounded gs fuel) {h : String} {g : GlyphS} {k : CompS}
+    (hg : AL.get? gs h = some g) (hk : k ∈ g.comps) : ∀ c m, k.base = some c → ¬ ReadsN gs m c h := by
+  intro c m hbase hrd
+  have := no_cycle hb (ReadsN.step g k hg hk hbase hrd)
+  omega
+
+theorem compDeliv_self {n : Nat} {T : Tables} {gs : Layer} {h : String} {kid : Nat} {cn : List String}
+    {y : String} (hy : y ∈ cn) : (Obj.comp kid, y) ∈ compDeliv n T gs h kid cn := compRelay_self hy
+
+theorem compDeliv_changed {n : Nat} {T : Tables} {gs : Layer} {h : String} {kid : Nat} {cn : List String}
+    (hc : cn.contains "Component.Changed" = true) {y : Obj × String}
+    (hy : y ∈ glyphDeliv n T gs h (T.postsOf "Glyph" "_componentChanged")) : y ∈ compDeliv n T gs h kid cn :=
+  compRelay_changed hc hy
+
+/-- shared part of the two component mutators: the record of component `kid` in glyph `h` is rewritten
+by `fn` (which keeps the id) and the component posts `cn`; `keep nm` says which names may survive on
+the component itself and must then see no change -/
+theorem inv_comp_change (P : Params V) (T : Tables) (hcov : Coverage T = true) (w w1 : World V) (kid : Nat)
+    (h : String × GlyphS) (fn : CompS → CompS) (cn : List String) (hid : ∀ c, (fn c).id = c.id)
+    (hinv : Inv P T w) (hdom : Dom w) (hh : hostOfComp w.glyphs kid = some h)
+    (hgs : w1.glyphs = AL.set w.glyphs h.1 (mapComps kid fn h.2)) (hf : w1.fuel = w.fuel) (hrg : w1.regs = w.regs)
+    (hgv : w1.groupsVer = w.groupsVer) (hca : w1.caches = w.caches) (hlc : w1.looseC = w.looseC)
+    (hlk : w1.looseK = w.looseK)
+    (hdom' : Dom (applyDeliv T w1 (compDeliv w1.fuel T w1.glyphs h.1 kid cn)))
+    (hchg : cn.contains "Component.Changed" = true)
+    (hself : ∀ k0 nm sk v, compIn h.2 kid = some k0 →
+      (cacheOf (applyDeliv T w1 (compDeliv w1.fuel T w1.glyphs h.1 kid cn)) (.comp kid)).get? nm sk = some v →
+      (isBuiltin T "Component" nm = true ∧ (fn k0).base = k0.base ∧ (fn k0).data = k0.data)) :
+    Inv P T (applyDeliv T w1 (compDeliv w1.fuel T w1.glyphs h.1 kid cn)) := by
+  obtain ⟨hg, hhas⟩ := host_get_comp hdom.ids.keys hh
+  have hd1 := Dom.congr (sameStruct_applyDeliv T _ _).symm hdom'
+  have hcg := cov_glyphOutline hcov (m := "_componentChanged") (by simp [glyphOutlineMethods])
+  have hcreg1 : CachedRegistered T w1 := by
+    intro o nm sk v hv
+    rw [cacheOf_eq_of_caches hca] at hv
+    rw [hrg]; exact hinv.creg _ _ _ _ hv
+  refine inv_glyph_local P T hcov w w1 h.1 h.2 _ (T.postsOf "Glyph" "_componentChanged") _ hinv hg hgs hf hrg hgv
+    hd1 (fun y hy => compDeliv_changed hchg hy) (Or.inl hcg.2)
+    (fun o nm sk v _ hv => by rw [cacheOf_eq_of_caches hca] at hv; exact hv) hcreg1 ?_ ?_ ?_ ?_
+  · intro o ha
+    rw [cacheOf_eq_of_caches hca]
+    have : attached w o = false := by
+      rw [← ha]; symm
+      cases o with
+      | contour cid' => exact attached_contour_set w w1 h.1 h.2 _ hdom.ids.keys hg hgs cid' rfl
+      | comp kid' =>
+        exact attached_comp_set w w1 h.1 h.2 _ hdom.ids.keys hg hgs kid' (hasComp_mapComps kid kid' _ hid h.2)
+      | glyph x => exact attached_glyph_set w w1 h.1 h.2 _ hg hgs x
+      | groups => rfl
+    exact hinv.loose o this
+  · intro nm sk v hs
+    exact (glyph_self_dead T hinv.rdef hrg hcg.1 hd1.bounded (fun y hy => compDeliv_changed hchg hy) hcreg1 hs).elim
+  · intro cid' nm sk v hs
+    have h1 := (get?_applyDeliv T _ _ _ nm sk v hs).1
+    rw [cacheOf_eq_of_caches hca] at h1
+    exact cont_of_view P T hinv h1
+      (viewOf_contour_of_find T (findContour_set w w1 h.1 h.2 _ hdom.ids.keys hg hgs cid' (by rw [hlc]) rfl rfl) nm)
+  · intro kid'
+    by_cases e : kid' = kid
+    · subst e
+      refine Or.inr (fun nm sk v hs => ?_)
+      obtain ⟨k0, hk0⟩ := compIn_of_has hhas
+      obtain ⟨hbi, hbase, hdata⟩ := hself k0 nm sk v hk0 hs
+      obtain ⟨hf1, hf0⟩ := findComp_at_host w w1 kid' h _ hdom.ids.keys hh hgs (hasComp_mapComps kid' kid' _ hid h.2)
+      rw [compIn_mapComps_self kid' _ hid h.2, hk0] at hf1
+      rw [hk0] at hf0
+      simp only [viewOf, hf1, hf0, Option.map_some, Option.getD_some, hf]
+      unfold compView
+      simp only [hbi, if_true]
+      unfold compToks
+      -- the new record sits in the new glyph record
+      have hmem : fn k0 ∈ (mapComps kid' fn h.2).comps := by
+        have : compIn (mapComps kid' fn h.2) kid' = some (fn k0) := by
+          rw [compIn_mapComps_self kid' _ hid h.2, hk0]; rfl
+        exact List.mem_of_find?_eq_some this
+      have hg1 : AL.get? w1.glyphs h.1 = some (mapComps kid' fn h.2) := by rw [hgs]; simp
+      have hno := base_not_reads_host hd1.bounded hg1 hmem
+      have e1 : compHead (outline w.fuel w1.glyphs) (fn k0) = compHead (outline w.fuel w1.glyphs) k0 := by
+        unfold compHead; rw [hbase, hdata]
+      rw [e1, hgs]
+      symm
+      apply compHead_set _ _ _ _ _ hg
+      refine Or.inr (fun c m hb => ?_)
+      have := hno c m (by rw [hbase]; exact hb)
+      rw [hgs] at this; exact this
+    · exact Or.inl (findComp_set w w1 h.1 h.2 _ hdom.ids.keys hg hgs kid' (by rw [hlk])
+        (hasComp_mapComps kid kid' _ hid h.2) (compIn_mapComps_other kid kid' e _ hid h.2))
+
+/-- a declared Component mutator (`kmut`) -/
+theorem inv_kmut (P : Params V) (T : Tables) (hcov : Coverage T = true) (w : World V) (kid : Nat) (meth : String)
+    (hinv : Inv P T w) (hdom : Dom w) (hdom' : Dom (doKmut T w kid meth).1) : Inv P T (doKmut T w kid meth).1 := by
+  unfold doKmut at hdom' ⊢
+  cases hm : AL.get? compMutators meth with
+  | none => simpa [hm] using hinv
+  | some cell =>
+    cases hh : hostOfComp w.glyphs kid with
+    | none =>
+      simp only [hm, hh] at hdom' ⊢
+      by_cases hl : w.looseK.any (fun c => c.id = kid) = true
+      · simp only [hl, if_true]
+        exact inv_loose_change P T w _ hinv rfl rfl rfl rfl rfl
+      · simp only [hl]; simpa using hinv
+    | some h =>
+      simp only [hm, hh] at hdom' ⊢
+      have hcc : covCell T "Component" cell (T.postsOf "Component" meth) = true := by
+        have h1 : compMutators.all (fun p => covCell T "Component" p.2 (T.postsOf "Component" p.1)) = true :=
+          cov_mem hcov (by simp [covList])
+        exact List.all_eq_true.mp h1 (meth, cell) (AL.mem_of_get? hm)
+      unfold covCell at hcc
+      rw [Bool.and_eq_true, changed_litK] at hcc
+      obtain ⟨hg, _⟩ := host_get_comp hdom.ids.keys hh
+      generalize hw1 : (tick ({ w with glyphs := updGlyph w.glyphs h.1 (mapComps kid (bumpComp w.clock cell)) }
+          : World V) : World V) = w1 at hdom' ⊢
+      have hgs : w1.glyphs = AL.set w.glyphs h.1 (mapComps kid (bumpComp w.clock cell) h.2) := by
+        rw [← hw1]; exact updGlyph_eq_set _ hg
+      have hrg : w1.regs = w.regs := by rw [← hw1]; rfl
+      refine inv_comp_change P T hcov w w1 kid h _ _ (bumpComp_id w.clock cell) hinv hdom hh hgs
+        (by rw [← hw1]; rfl) hrg (by rw [← hw1]; rfl) (by rw [← hw1]; rfl) (by rw [← hw1]; rfl)
+        (by rw [← hw1]; rfl) hdom' hcc.1 ?_
+      intro k0 nm sk v _ hs
+      by_cases hkeep : cell = CCell.attr ∧ isBuiltin T "Component" nm = true
+      · obtain ⟨hc1, hbi⟩ := hkeep
+        subst hc1
+        exact ⟨hbi, rfl, rfl⟩
+      · exfalso
+        have h1 := (get?_applyDeliv T _ _ _ nm sk v hs).1
+        have hca : w1.caches = w.caches := by rw [← hw1]; rfl
+        rw [cacheOf_eq_of_caches hca] at h1
+        have hreg := hinv.creg _ _ _ _ h1
+        have : ∃ d y, (nm, d) ∈ facsOf T w.regs "Component" ∧ y ∈ T.postsOf "Component" meth ∧ d.hit y = true := by
+          by_cases hc1 : cell = CCell.attr
+          · simp only [hc1, if_true] at hcc
+            have hnb : isBuiltin T "Component" nm = false := by
+              cases hb : isBuiltin T "Component" nm with
+              | false => rfl
+              | true => exact absurd ⟨hc1, hb⟩ hkeep
+            exact hits_of_hitsReg hinv.rdef hcc.2 hreg hnb
+          · simp only [hc1, if_false] at hcc
+            exact hits_of_hitsAll hinv.rdef hcc.2 hreg
+        obtain ⟨d, y, hd, hy, hhit⟩ := this
+        exact not_survivor hs (by rw [hrg]; exact hd) (compDeliv_self hy) hhit
+
+/-- the `baseGlyph` setter of a component (`ksetBase`) -/
+theorem inv_ksetBase (P : Params V) (T : Tables) (hcov : Coverage T = true) (w : World V) (kid : Nat)
+    (base : Option String) (hinv : Inv P T w) (hdom : Dom w) (hdom' : Dom (doKsetBase T w kid base).1) :
+    Inv P T (doKsetBase T w kid base).1 := by
+  unfold doKsetBase at hdom' ⊢
+  cases hh : hostOfComp w.glyphs kid with
+  | none =>
+    simp only [hh] at hdom' ⊢
+    by_cases hl : w.looseK.any (fun c => c.id = kid) = true
+    · simp only [hl, if_true]
+      exact inv_loose_change P T w _ hinv rfl rfl rfl rfl rfl
+    · simp only [hl]; simpa using hinv
+  | some h =>
+    simp only [hh] at hdom' ⊢
+    have hcc : covCell T "Component" .pts (T.postsOf "Component" "_set_baseGlyph") = true :=
+      cov_mem hcov (by simp [covList])
+    unfold covCell at hcc
+    rw [Bool.and_eq_true, changed_litK] at hcc
+    simp only [reduceCtorEq, if_false] at hcc
+    obtain ⟨hg, _⟩ := host_get_comp hdom.ids.keys hh
+    generalize hw1 : (tick ({ w with glyphs := updGlyph w.glyphs h.1 (mapComps kid (setBase w.clock base (watchFor w.glyphs base))) } : World V) : World V) = w1 at hdom' ⊢
+    have hgs : w1.glyphs = AL.set w.glyphs h.1 (mapComps kid (setBase w.clock base (watchFor w.glyphs base)) h.2) := by
+      rw [← hw1]; exact updGlyph_eq_set _ hg
+    have hrg : w1.regs = w.regs := by rw [← hw1]; rfl
+    refine inv_comp_change P T hcov w w1 kid h (setBase w.clock base (watchFor w.glyphs base)) _ (fun c => rfl) hinv hdom hh hgs
+      (by rw [← hw1]; rfl) hrg (by rw [← hw1]; rfl) (by rw [← hw1]; rfl) (by rw [← hw1]; rfl)
+      (by rw [← hw1]; rfl) hdom' hcc.1 ?_
+    intro k0 nm sk v _ hs
+    exfalso
+    have h1 := (get?_applyDeliv T _ _ _ nm sk v hs).1
+    have hca : w1.caches = w.caches := by rw [← hw1]; rfl
+    rw [cacheOf_eq_of_caches hca] at h1
+    obtain ⟨d, y, hd, hy, hhit⟩ := hits_of_hitsAll hinv.rdef hcc.2 (hinv.creg _ _ _ _ h1)
+    exact not_survivor hs (by rw [hrg]; exact hd) (compDeliv_self hy) hhit
+
 /-- an attribute mutator of a glyph (`gmut`) -/
 theorem inv_gmut (P : Params V) (T : Tables) (hcov : Coverage T = true) (w : World V) (g meth : String)
     (hinv : Inv P T w) (hdom : Dom w) (hdom' : Dom (doGmut T w g meth).1) : Inv P T (doGmut T w g meth).1 := by
